@@ -4,7 +4,11 @@
    binary payload.  [scene_ok] is what a modeling.Mesh guarantees structurally (K components per vector,
    float32 / byte words, all attributes of one length, indices below it) — no bound on the number of
    models, vertices, attributes, repeated pointers, materials, instances or lights. *)
-From PF Require Import Base.Bytes Formats.Gltf Formats.GltfProofs Formats.GltfExtProofs Formats.GltfGlbProofs.
+From PF Require Import Base.Bytes Formats.Gltf Formats.GltfProofs Formats.GltfExtProofs Formats.GltfDedupProofs
+  Formats.GltfNodeProofs Formats.GltfGlbProofs.
+From Coq Require String.
+Import String.StringSyntax.
+Delimit Scope string_scope with string.
 Open Scope list_scope.
 Open Scope N_scope.
 
@@ -98,6 +102,84 @@ Theorem minmax_bounds : forall c k es j, (j < N.to_nat k)%nat ->
   end.
 Proof. exact minmax_of_sound. Qed.
 Print Assumptions minmax_bounds.
+
+(* ---- nodes.  [scene_ptr_ok]: pointer identity is consistent with values (two models with the same
+   mesh pointer have the same mesh) — what a Go pointer guarantees.  [model_nodes sc] are the first
+   |live models| nodes of the document; [node_doc st mo nd mi p ii] collects what the document says about
+   the node of one model: name, TRS, mesh index [mi], its single primitive [p] with index accessor [ii]
+   being exactly the block of chunks written for the model's mesh, material index from the material
+   table, instance accessors. *)
+
+(* node j is the node of the j-th model that has a primitive (models with an empty mesh are skipped);
+   one node per light follows, in order; every node is a scene root *)
+Theorem node_link : forall sc, scene_ptr_ok sc ->
+  let st := run sc in
+  exists mn, st_nodes st = mn ++ light_nodes 0 (sc_lights sc) /\
+    Forall2 (fun mo nd => exists mi p ii, node_doc st mo nd mi p ii) (filter live (sc_models sc)) mn /\
+    st_scene st = seqN (length (st_nodes st)) /\ st_lights st = map light_out (sc_lights sc).
+Proof. exact nodes_of_run. Qed.
+Print Assumptions node_link.
+
+(* node transforms (float64 bit patterns) and names equal the model's *)
+Theorem node_trs_equal : forall sc, scene_ptr_ok sc ->
+  Forall2 (fun mo nd => gn_name nd = mo_name mo /\ gn_t nd = mo_t mo /\ gn_r nd = mo_r mo /\ gn_s nd = mo_s mo /\
+                        gn_light nd = None)
+          (filter live (sc_models sc)) (model_nodes sc).
+Proof. exact node_trs_run. Qed.
+Print Assumptions node_trs_equal.
+
+(* EXT_mesh_gpu_instancing: a node has the extension iff its model has instances; the TRANSLATION / SCALE /
+   ROTATION accessors are FLOAT VEC3 / VEC3 / VEC4 with one element per instance and decode to exactly the
+   instances' float32 translations, scales and rotations *)
+Theorem instances_equal : forall sc, scene_ok sc -> scene_ptr_ok sc ->
+  let st := run sc in let s := to_summary st in
+  Forall2 (fun mo nd =>
+    match mo_inst mo with
+    | [] => gn_inst nd = None
+    | ins => exists t sc_ r at_ as_ ar,
+        gn_inst nd = Some [("TRANSLATION"%string, t); ("SCALE"%string, sc_); ("ROTATION"%string, r)] /\
+        In "EXT_mesh_gpu_instancing"%string (gn_exts nd) /\
+        nth_error (s_accs s) (N.to_nat t) = Some at_ /\ nth_error (s_accs s) (N.to_nat sc_) = Some as_ /\
+        nth_error (s_accs s) (N.to_nat r) = Some ar /\
+        (a_comp at_, a_k at_, a_count at_) = (5126, 3, len ins) /\
+        (a_comp as_, a_k as_, a_count as_) = (5126, 3, len ins) /\
+        (a_comp ar, a_k ar, a_count ar) = (5126, 4, len ins) /\
+        decode_acc (s_views s) (buf st) at_ = Some (map in_t ins) /\
+        decode_acc (s_views s) (buf st) as_ = Some (map in_s ins) /\
+        decode_acc (s_views s) (buf st) ar = Some (map in_r ins)
+    end) (filter live (sc_models sc)) (model_nodes sc).
+Proof. exact instances_run. Qed.
+Print Assumptions instances_equal.
+
+(* shared things are stored once and referenced consistently, for any two models of the scene:
+   same mesh pointer => the same accessor indices; the same mesh entry iff same mesh pointer and same
+   material entry (so: same pointer with different materials => two mesh entries sharing the accessors);
+   the same material entry iff the two materials are equal by value ([mat_equal], an equivalence) *)
+Theorem dedup_consistent : forall sc, scene_ptr_ok sc ->
+  forall mo1 nd1 mo2 nd2,
+  In (mo1, nd1) (combine (filter live (sc_models sc)) (model_nodes sc)) ->
+  In (mo2, nd2) (combine (filter live (sc_models sc)) (model_nodes sc)) ->
+  exists mi1 p1 ii1 mi2 p2 ii2,
+    node_doc (run sc) mo1 nd1 mi1 p1 ii1 /\ node_doc (run sc) mo2 nd2 mi2 p2 ii2 /\
+    (me_ptr (mo_mesh mo1) = me_ptr (mo_mesh mo2) -> gp_attrs p1 = gp_attrs p2 /\ gp_idx p1 = gp_idx p2) /\
+    (mi1 = mi2 <-> me_ptr (mo_mesh mo1) = me_ptr (mo_mesh mo2) /\ gp_mat p1 = gp_mat p2) /\
+    (forall pm1 pm2, mo_mat mo1 = Some pm1 -> mo_mat mo2 = Some pm2 ->
+       (gp_mat p1 = gp_mat p2 <-> mat_equal pm1 pm2 = true)) /\
+    (mo_mat mo1 = None -> gp_mat p1 = None).
+Proof. exact dedup_run. Qed.
+Print Assumptions dedup_consistent.
+Theorem mat_equal_is_equivalence :
+  (forall a, mat_equal a a = true) /\ (forall a b, mat_equal a b = mat_equal b a) /\
+  (forall a b c, mat_equal a b = true -> mat_equal b c = true -> mat_equal a c = true).
+Proof. exact (conj mat_equal_refl (conj mat_equal_sym mat_equal_trans)). Qed.
+Print Assumptions mat_equal_is_equivalence.
+(* the material entry a model's primitive refers to was built (AddMaterial) from a material equal by value *)
+Theorem material_entry_built : forall sc, scene_ptr_ok sc ->
+  forall mo nd pm, In (mo, nd) (combine (filter live (sc_models sc)) (model_nodes sc)) -> mo_mat mo = Some pm ->
+  exists mi p ii i e x g, node_doc (run sc) mo nd mi p ii /\ gp_mat p = Some i /\ mat_equal e pm = true /\
+    nth_error (s_mats (to_summary (run sc))) (N.to_nat i) = Some g /\ g = fst (build_material e x).
+Proof. exact material_run. Qed.
+Print Assumptions material_entry_built.
 
 (* extensions in use are declared: every extension key emitted on a node, a material, a texture
    reference, a texture or at the root is listed in extensionsUsed, and extensionsRequired is a subset *)
